@@ -750,15 +750,17 @@ def parse_vc(path):
                     if not m2:
                         raise ExtractError(f'{path}: bad #truncate-after (need `[sha=<hash>] /regex/ = expr`): {s2}')
                     fn['truncate'] = (m2.group(2), m2.group(3).strip(), m2.group(1))
-                elif s2.startswith('#wrap-postfix '):
+                elif s2.startswith('#wrap-postfix ') or s2.startswith('#wrap-postfix-opt '):
                     # R7w: `#wrap-postfix sha=<hash> /receiver-start-regex/ /postfix-regex/ = FUNC`: the method-chain
                     # suffix matched by the second regex (compact text, pinned by hash), applied to the bracket-balanced
                     # expression that starts at the match of the first regex and ends right in front of the suffix, is
                     # replaced by a call `FUNC(<that expression>)` of an assumed function - the receiver stays verified
-                    m2 = re.match(r'#wrap-postfix\s+sha=(\w+)\s+/(.+?)/\s+/(.+)/\s*=\s*(.+)$', s2)
+                    # (`#wrap-postfix-opt`: a receiver that is no longer in the body is not a lost anchor - there is then
+                    # nothing to abstract, and a property clause that needed the call fails on its own)
+                    m2 = re.match(r'#wrap-postfix(?:-opt)?\s+sha=(\w+)\s+/(.+?)/\s+/(.+)/\s*=\s*(.+)$', s2)
                     if not m2:
                         raise ExtractError(f'{path}: bad #wrap-postfix (need `sha=<hash> /start/ /postfix/ = func`): {s2}')
-                    fn.setdefault('wrap_postfix', []).append((m2.group(2), m2.group(3), m2.group(4).strip(), m2.group(1)))
+                    fn.setdefault('wrap_postfix', []).append((m2.group(2), m2.group(3), m2.group(4).strip(), m2.group(1), s2.startswith('#wrap-postfix-opt ')))
                 elif s2.startswith('#abstract-expr-all '):
                     # R7e, every occurrence (for constants that a body may mention any number of times): all matches
                     # must be the same text (pinned by hash)
@@ -1157,7 +1159,7 @@ def extract_fn(repo, spec, features):
         dropped.append((T[a].start, T[e].end))
 
     # ---- R7w: postfix abstraction (see the directive).  E.<postfix>  ->  FUNC(E)
-    for (rx_start, rx_post, func, want_sha) in spec.get('wrap_postfix', []):
+    for (rx_start, rx_post, func, want_sha, optional) in spec.get('wrap_postfix', []):
         live = [j for j in range(bo + 1, bc) if alive(T[j]) and T[j].kind != 'comment']
         offs, acc = [], 0
         for j in live:
@@ -1166,6 +1168,9 @@ def extract_fn(repo, spec, features):
         compact_txt = ''.join(T[j].text for j in live)
         ms = [m for m in re.finditer(rx_start, compact_txt) if m.start() in offs]
         mp = [m for m in re.finditer(rx_post, compact_txt) if m.start() in offs and (m.end() in offs or m.end() == acc)]
+        if optional and len(ms) == 0:
+            log.append({'step': 'R7w', 'skipped': f'receiver /{rx_start}/ not in the body; nothing abstracted'})
+            continue
         if len(ms) != 1 or len(mp) != 1 or mp[0].start() <= ms[0].start():
             raise ExtractError(f'lost anchor: postfix /{rx_start}/ /{rx_post}/ in {spec["name"]} ({len(ms)}, {len(mp)} matches)')
         a = live[offs.index(ms[0].start())]
